@@ -61,6 +61,23 @@ PROPS = {
             enum("precedence-triples", "TestC02PrecedenceTriples"),
         ],
     ),
+    "C03": dict(
+        technique="model-based PBT over assignment histories interleaved with host writes, against a typed map model; recording Storer; exhaustive operator x type table",
+        level_text="Histories of up to 25 (thorough 60) steps - set with every assignment operator, declare, reads through a capturing host function, host writes of "
+                   "any type under any name (type changes included) and host reads - are run one statement per Next call on a recording Storer and on the "
+                   "library's InMemoryStorer. After every step: Next erred exactly when the model says so; GetValues equals the model; GetValue, Contains and "
+                   "GetValues agree on presence and on a single type per name; a failing statement wrote nothing and a successful one wrote exactly its target once; "
+                   "values read by the script are the last ones assigned or written by the host. Exhaustive: operator x current type x assigned type x storer. Search, not proof.",
+        level_note="Trusts the map model (assign in harness/model_script_test.go). After a failing statement the harness expects the marker line of the next statement; "
+                   "if the runner resumed elsewhere the case would be discarded (counted), not failed.",
+        rule="histories from a step generator over six variable names; non-trivial = at least one compound assignment to an existing variable and (a failing "
+             "statement or a host write); distinct = distinct serialised histories.",
+        assumptions=["numbers in this check are small decimals; exact IEEE behaviour of the arithmetic is C02's business"],
+        subs=[
+            rapid("histories", "TestC03Histories", 5000, 50000, env=dict(quick=dict(VERIF_C03_STEPS=25), thorough=dict(VERIF_C03_STEPS=60))),
+            enum("operator-table", "TestC03OperatorTable"),
+        ],
+    ),
     "C05": dict(
         technique="PBT + native fuzzing with a differential validity oracle (independent error listeners on the same grammar) and a constructed accept/reject catalogue",
         level_text="Arbitrary bytes, fragment soups, token/line mutations of all repository fixtures, node-boundary and byte-offset reader "
